@@ -233,6 +233,7 @@ def formed_tails(kind: str) -> List[List]:
         ("node-session-remote-logoff", {**n, "remote_ip": ip}),
         ("node-send-remote-command", {**n, "remote_ip": ip, "command": cmd}),
         ("node-send-local-command", {**n, "username": "admin", "password": "admin", "command": cmd}),
+        ("configure-database-client", {**n, "server_ip_address": ip, "server_password": "pw"}),
         ("router-acl-add-rule", {**rule, "target_router": S}),
         ("router-acl-remove-rule", {"target_router": S, "position": 1}),
     ]
@@ -261,6 +262,8 @@ def leaf_request(kind: str, leaf: List) -> List:
     for tail in formed_tails(kind):
         if tail[: len(leaf)] == leaf and len(tail) > len(leaf):
             return ["network", "node", S] + [x if not isinstance(x, (dict, list)) else _copy(x) for x in tail]
+    if len(leaf) == 4 and leaf[:2] == ["file_system", "folder"] and leaf[3] == "delete":
+        return ["network", "node", S] + list(leaf) + ["p.txt"]  # folder/<name>/delete takes the file name
     return ["network", "node", S] + list(leaf) + _copy(MANUAL_ARGS.get(tuple(leaf), []))
 
 
